@@ -129,6 +129,27 @@ def check(ctx):
                     ctx.ob("K2", "%s connect Deferred fired only by CONNACK or the timeout (%s)" % (cq, tr.label()), ok, where=where(e),
                            function=e.func, construct="%s/connect-fire/%s" % (e.func, tr.label()),
                            msg="connect Deferred fired with %s(%s) in context %s" % (e.a["how"], show(e.a["arg"]), tr.label()))
+        # the timeout closure armed by connect(): every path fails the Deferred with MQTTTimeoutError once and closes
+        targets = set()
+        for tr in contexts(cat):
+            if tr.kind == "API" and tr.name == "connect":
+                for e in tr.events:
+                    if e.kind == "ARM":
+                        key, func, _ = cat._target(e.a["target"])
+                        if func is not None:
+                            targets.add(func.qual)
+        for tr in contexts(cat):
+            if tr.kind == "TIMER" and tr.entry.func.qual in targets:
+                fires = [e for e in tr.events if e.kind == "FIRE" and isinstance(e.a["dfr"], tuple) and e.a["dfr"][0] == "attr" and conn_owner(e.a["dfr"][1])]
+                closes = [e for e in tr.events if e.kind == "CLOSE"]
+                fnc = tr.entry.func
+                okf = len(fires) == 1 and fires[0].a["how"] == "errback" and (exc_class(fires[0].a["arg"]) or "").endswith("MQTTTimeoutError") \
+                    and bool(closes) and tr.path.exit_kind() != "raise"
+                ctx.ob("K2", "%s CONNACK timeout fails the connect Deferred once and closes, on every path" % cq, okf,
+                       where="%s:%d" % (fnc.file, fnc.node.lineno), function=fnc.qual, construct="%s/timeout-path" % fnc.qual,
+                       msg="a path through the CONNACK-timeout callback fires the connect Deferred %d time(s) and closes %d time(s) (conditions %s): "
+                           "e.g. after a connection loss during the handshake nothing else ever fires that Deferred" % (
+                               len(fires), len(closes), [repr(c) for c in tr.path.conds]))
         for tr in contexts(cat):
             if not (tr.kind == "NET" and tr.name == "CONNACK" and tr.slot == "CONNECTING" and tr.decode_ok):
                 continue
